@@ -115,6 +115,10 @@ type Rig struct {
 	Verifier wallet.Helper
 }
 
+// NoGenesis, while set, makes New build a node whose ledger is empty and not loaded (a joining node whose sync has
+// not happened or was refused, serving requests all the same).
+var NoGenesis bool
+
 // New builds the rig: genesis paying users[0], challenge longevity in seconds, contract data limit.
 func New(users int, longevity uint64, dataSize int) (*Rig, error) {
 	ctx, cancel := context.WithCancel(context.Background())
@@ -127,9 +131,11 @@ func New(users int, longevity uint64, dataSize int) (*Rig, error) {
 	if err != nil {
 		return nil, err
 	}
-	r.Genesis, err = r.Book.CreateGenesis("GENESIS", spice.Melange{Currency: 1000000}, []byte{}, r.Users[0].Addr)
-	if err != nil {
-		return nil, err
+	if !NoGenesis {
+		r.Genesis, err = r.Book.CreateGenesis("GENESIS", spice.Melange{Currency: 1000000}, []byte{}, r.Users[0].Addr)
+		if err != nil {
+			return nil, err
+		}
 	}
 	if r.Cache, err = cache.New(4000, 512); err != nil {
 		return nil, err
